@@ -710,8 +710,11 @@ def c17_scan(p):
                 only.append("back-reference")
             if depth == 0 and d == "$":
                 only.append("escape \\$")
-            out.append(p[i:i + 2])
-            i += 2
+            j = i + 2
+            if d in "pP" and p[j:j + 1] == "{" and "}" in p[j:]:
+                j = p.index("}", j) + 1            # \p{Name}: the braces are not a quantifier
+            out.append(p[i:j])
+            i = j
             after_quant = False
             continue
         if depth > 0:
@@ -980,12 +983,21 @@ def c18_oracle(ctx, g):
             cnt, k = rec[4], rec[5]
             if fa.startswith("ERR"):
                 want = "NOITER"
+            elif not fa.startswith("OK:"):
+                continue                       # the fresh enumeration did not finish (HANG / PANIC): nothing to compare with
             elif k == "t":
-                toks = parse_tokens(fa)
-                want = ("tok=" + rxlib.cps(toks[cnt])) if toks is not None and cnt < len(toks) else "NONE"
+                _, n, body = fa.split(":", 2)
+                more = body.endswith("+MORE")
+                toks = (body[:-5] if more else body).split("|") if int(n) else []
+                if cnt >= len(toks) and more:
+                    continue                   # beyond the enumerated prefix of an endless token stream (K1)
+                want = ("tok=" + toks[cnt]) if cnt < len(toks) else "NONE"
             else:
-                body = fa.split(":", 2)[2] if fa.startswith("OK:") else ""
-                ents = body.split(";") if body else []
+                body = fa.split(":", 2)[2]
+                more = body.endswith("+MORE")
+                ents = (body[:-5] if more else body).split(";") if body and body != "+MORE" else []
+                if cnt >= len(ents) and more:
+                    continue
                 want = ents[cnt].replace(";", "/") if cnt < len(ents) else "NONE"
         if got != want and not out:
             out.append(f"history ({g.meta['mode']}, {g.meta['nthreads']} thread(s)): operation {idx} of thread {t} answered {got[:60]!r}, the same call on a freshly compiled Regex gives {want[:60]!r}")
